@@ -503,6 +503,61 @@ def record(chunk):
     return out
 
 
+def history_events():
+    """financial formulas whose arguments are FORMULA cells, re-evaluated after an input two levels below was set (the result is
+    the function of the current flows / amounts): rates 0, 1 (100%) and -1/2 keep every value a short rational"""
+    from harness import syntax as S
+    evs = []
+    for rate in ('1', '0', '-0.5'):
+        for amounts in ((700, 1400, 700), (-800, 0, 1600), (64, 32, 64)):
+            evs.append({'kind': 'pv-of-pmt', 'rate': rate, 'amounts': amounts})
+            evs.append({'kind': 'npv-of-growing', 'rate': rate, 'amounts': amounts})
+    return evs
+
+
+def record_history(chunk):
+    from harness import syntax as S
+    L = xl.lib()
+    out = []
+    for e in chunk:
+        if e['kind'] == 'pv-of-pmt':      # A1 rate, A2 periods, A3 amount; B1 = PMT(A1,A2,A3); C1 = PV(A1,A2,B1)+A3*0
+            f_b1 = S.call('PMT', [S.ref(1, 1), S.ref(1, 2), S.ref(1, 3)])
+            f_c1 = S.call('PV', [S.ref(1, 1), S.ref(1, 2), S.ref(2, 1)])
+            forms = {(2, 1): f_b1, (3, 1): f_c1}
+            consts = {(1, 1): Fraction(e['rate']), (1, 2): Fraction(3), (1, 3): Fraction(e['amounts'][0])}
+            knob, probe = (1, 3), (3, 1)
+        else:                              # E1 growth; F1 first flow; F2..F4 = F(k-1)*E1; D1 = NPV(A1,F1:F4)
+            forms = {(6, r): S.bin_('*', S.ref(6, r - 1), S.ref(5, 1)) for r in (2, 3, 4)}
+            forms[(4, 1)] = S.call('NPV', [S.ref(1, 1), S.rng(6, 1, 6, 4)])
+            consts = {(1, 1): Fraction(e['rate']), (5, 1): Fraction(2), (6, 1): Fraction(e['amounts'][0])}
+            knob, probe = (5, 1), (4, 1)
+            e = dict(e, amounts=(2, 1, Fraction(1, 2)))
+        d = {f'Sheet1!{S.col_letters(c)}{r}': (float(v) if v.denominator != 1 else int(v)) for (c, r), v in consts.items()}
+        d.update({f'Sheet1!{S.col_letters(c)}{r}': S.formula(a) for (c, r), a in forms.items()})
+        try:
+            model = L.ModelCompiler().read_and_parse_dict(d)
+            ev = L.Evaluator(model)
+        except BaseException as ex:      # noqa
+            raise MachineryError(f'history workbook does not build: {ex!r}')
+        paddr = f'Sheet1!{S.col_letters(probe[0])}{probe[1]}'
+        for step, v in enumerate(e['amounts']):
+            v = Fraction(v)
+            if step:
+                (ev if step % 2 else model).set_cell_value(f'Sheet1!{S.col_letters(knob[0])}{knob[1]}', float(v) if v.denominator != 1 else int(v))
+                consts[knob] = v
+            try:
+                res = xl.to_abs(ev.evaluate(paddr))
+            except BaseException as ex:      # noqa
+                if isinstance(ex, (KeyboardInterrupt, SystemExit)):
+                    raise
+                res = {'t': 'exc', 'cls': type(ex).__name__}
+            cells = [{'sheet': 'Sheet1', 'col': c, 'row': r, 'v': {'t': 'num', 'n': x.numerator, 'd': x.denominator}} for (c, r), x in sorted(consts.items())]
+            cells += [{'sheet': 'Sheet1', 'col': c, 'row': r, 'ast': a} for (c, r), a in sorted(forms.items()) if (c, r) != probe]
+            out.append({'ast': forms[probe], 'sheet': 'Sheet1', 'names': [], 'res': res, 'addr': paddr, 'cells': cells,
+                        'text': f"{S.formula(forms[probe])} ({e['kind']}, rate {e['rate']}) after {S.col_letters(knob[0])}{knob[1]} := {[str(Fraction(x)) for x in e['amounts'][:step + 1]]}"})
+    return out
+
+
 def validate(run, events, timeout=900, batch=20000):
     """Trace_C20 verdicts; "cmp" verdicts are settled here against the exact expected value TLC computed"""
     out = []
@@ -607,6 +662,14 @@ def run(run):
         'left open: VDB, PMT with type=1, IRR/XIRR outside "one sign change, positive sum", the guess argument, '
         'life <= 0, nper <= 0, type not in {0,1}, non-numeric arguments (C07/C08), 2-D ranges',
     ]
+    # histories: the financial functions over formula cells, re-evaluated after an input two levels below was set
+    from harness import evalrec
+    he = [x for part in pool.pmap(record_history, history_events(), nchunks=6) for x in part]
+    hv = evalrec.validate(run, he, name='finhist', kind='financial-history')
+    run.evaluations += len(he)
+    run.notes['financial_history_events'] = dict(hv)
+    if sum(n for k, n in hv.items() if k != 'open') < len(he) // 2:
+        raise MachineryError(f'financial-history events: too few judged ({dict(hv)})')
     events = driver(run.seed, 3000 if quick else 40000)
     recorded = [e for part in pool.pmap(record, events) for e in part]
     run.evaluations += len(recorded)
